@@ -207,6 +207,21 @@ func c04Point(c *ev.Ctx, r *rand.Rand, caseN, k int, d *cons.DAG, T *cons.Inst, 
 		}
 	}
 	real := c04candidate(plan.Epoch, e.Creator(), sp, others)
+	if r.Intn(3) == 0 {
+		// an emitter that builds a draft, then adds parents to the SAME object (which now carries the
+		// draft's ID) and builds again
+		draft := c04candidate(plan.Epoch, e.Creator(), sp, nil)
+		draft.SetLamport(real.Lamport())
+		if err := B.Build(draft); err != nil {
+			m := desc()
+			m["error"] = err.Error()
+			c.Violation("build-failed", m)
+			return false
+		}
+		draft.SetParents(real.Parents())
+		real = draft
+		c.Count("rebuilds_of_an_already_built_object", 1)
+	}
 	if !check(real, "real event after the burst", K) {
 		return false
 	}
